@@ -5,6 +5,9 @@ import (
 	"go/constant"
 	"go/token"
 	"go/types"
+	"os"
+	"path/filepath"
+	"regexp"
 	"strings"
 
 	"golang.org/x/tools/go/ssa"
@@ -64,20 +67,35 @@ func (fr *frame) localBuilder(v ssa.Value) string {
 func (fr *frame) builderCall(name, method string, args []*Val, st *State) *Val {
 	u := fr.u
 	cur := u.heapGet(st, name, "String")
+	// Two more cells per builder: what it held when Len() was last taken (#m) and what has been written since (#s). By
+	// construction content == #m ++ #s at all times, so `b.String()[n:]` with n a remembered Len() is #s - stated as a
+	// lemma at String(), because the string solver does not find "the suffix after a prefix of that length" by itself.
+	since := u.heapGet(st, name+"#s", "String")
 	switch method {
 	case "WriteString":
 		s := fr.valTerm(args[1], st)
 		u.heapSet(st, name, "String", fmt.Sprintf("(str.++ %s %s)", cur, s))
+		u.heapSet(st, name+"#s", "String", fmt.Sprintf("(str.++ %s %s)", since, s))
 		return &Val{tuple: []*Val{{t: fmt.Sprintf("(str.len %s)", s)}, {t: "(mk-iface 0 0)"}}}
 	case "WriteByte":
-		u.heapSet(st, name, "String", fmt.Sprintf("(str.++ %s (str.from_code %s))", cur, fr.valTerm(args[1], st)))
+		b := fmt.Sprintf("(str.from_code %s)", fr.valTerm(args[1], st))
+		u.heapSet(st, name, "String", fmt.Sprintf("(str.++ %s %s)", cur, b))
+		u.heapSet(st, name+"#s", "String", fmt.Sprintf("(str.++ %s %s)", since, b))
 		return &Val{t: "(mk-iface 0 0)"}
 	case "String":
-		return &Val{t: cur}
+		mark := u.heapGet(st, name+"#m", "String")
+		c := u.define("sb", "String", cur)
+		u.assume("true", fmt.Sprintf("(and (= %s (str.++ %s %s)) (= (str.substr %s (str.len %s) (- (str.len %s) (str.len %s))) %s))",
+			c, mark, since, c, mark, c, mark, since))
+		return &Val{t: c}
 	case "Len":
+		u.heapSet(st, name+"#m", "String", cur)
+		u.heapSet(st, name+"#s", "String", "\"\"")
 		return &Val{t: fmt.Sprintf("(str.len %s)", cur)}
 	case "Reset":
 		u.heapSet(st, name, "String", "\"\"")
+		u.heapSet(st, name+"#m", "String", "\"\"")
+		u.heapSet(st, name+"#s", "String", "\"\"")
 	}
 	return &Val{t: "0"}
 }
@@ -638,4 +656,131 @@ func (e *Engine) constScalar(g *ssa.Global) (*ssa.Const, bool) {
 	}
 	e.scalars[g] = val
 	return val, true
+}
+
+// initOnce: an UNEXPORTED package-level variable that is assigned exactly once, in the package initialiser, from an
+// expression built only of constants and calls of functions outside /repo (`regexp.MustCompile("...")`,
+// `template.Must(template.New("x").Parse("..."))`), is never assigned again and never has its address taken, holds what
+// that expression produced. Reading it re-evaluates the expression at the point of the read, under the (assumed)
+// contracts of what it calls: hoisting a per-call computation of constants to package level changes nothing.
+type initExpr struct {
+	fn     *ssa.Function
+	instrs []ssa.Instruction
+	val    ssa.Value
+}
+
+func (e *Engine) initOnce(g *ssa.Global) *initExpr {
+	if e.initExprs == nil {
+		e.initExprs = map[*ssa.Global]*initExpr{}
+	}
+	if ie, seen := e.initExprs[g]; seen {
+		return ie
+	}
+	e.initExprs[g] = nil
+	if g.Object() == nil || g.Object().Exported() || g.Pkg == nil || !strings.HasPrefix(g.Pkg.Pkg.Path(), modPath) {
+		return nil
+	}
+	init := g.Pkg.Func("init")
+	if init == nil {
+		return nil
+	}
+	// a variable the contracts talk about keeps its identity (specifications read it from the heap); the rule is for
+	// variables that did not exist when the contracts were written
+	dir := strings.TrimPrefix(strings.TrimPrefix(g.Pkg.Pkg.Path(), modPath), "/")
+	if text, err := os.ReadFile(filepath.Join(repoDir, dir, "verif_contracts.go")); err == nil {
+		if regexp.MustCompile(`\b` + regexp.QuoteMeta(g.Name()) + `\b`).Match(text) {
+			return nil
+		}
+	}
+	var store *ssa.Store
+	ok := true
+	var check func(fn *ssa.Function)
+	check = func(fn *ssa.Function) {
+		for _, blk := range fn.Blocks {
+			for _, in := range blk.Instrs {
+				uses := false
+				for _, op := range in.Operands(nil) {
+					if op != nil && *op == ssa.Value(g) {
+						uses = true
+					}
+				}
+				if !uses {
+					continue
+				}
+				switch x := in.(type) {
+				case *ssa.UnOp:
+					if x.Op != token.MUL {
+						ok = false
+					}
+				case *ssa.Store:
+					if fn != init || x.Addr != ssa.Value(g) || store != nil {
+						ok = false
+					}
+					store = x
+				case *ssa.DebugRef:
+				default:
+					ok = false
+				}
+			}
+		}
+		for _, a := range fn.AnonFuncs {
+			check(a)
+		}
+	}
+	for _, fn := range e.funcs {
+		check(fn)
+	}
+	if _, listed := e.funcs[funcName(init)]; !listed {
+		check(init)
+	}
+	if !ok || store == nil {
+		return nil
+	}
+	// the backward slice of the stored value: constants and calls only
+	need := map[ssa.Instruction]bool{}
+	var walk func(v ssa.Value) bool
+	walk = func(v ssa.Value) bool {
+		switch x := v.(type) {
+		case *ssa.Const, *ssa.Function:
+			return true
+		case *ssa.Call:
+			callee := x.Call.StaticCallee()
+			if callee == nil || x.Call.IsInvoke() || isRepoFunc(callee) || len(callee.Blocks) > 0 && callee.Pkg != nil && strings.HasPrefix(callee.Pkg.Pkg.Path(), modPath) {
+				return false
+			}
+			for _, a := range x.Call.Args {
+				if !walk(a) {
+					return false
+				}
+			}
+			need[x] = true
+			return true
+		case *ssa.Extract:
+			if !walk(x.Tuple) {
+				return false
+			}
+			need[x] = true
+			return true
+		case *ssa.ChangeType:
+			if !walk(x.X) {
+				return false
+			}
+			need[x] = true
+			return true
+		}
+		return false
+	}
+	if _, isConst := store.Val.(*ssa.Const); isConst || !walk(store.Val) {
+		return nil
+	}
+	ie := &initExpr{fn: init, val: store.Val}
+	for _, blk := range init.Blocks {
+		for _, in := range blk.Instrs {
+			if need[in] {
+				ie.instrs = append(ie.instrs, in)
+			}
+		}
+	}
+	e.initExprs[g] = ie
+	return ie
 }
